@@ -609,7 +609,9 @@ func copyComponentValue(targetComponent *Node, sourceComponent *Node) *Node {
 			targetComponent = sourceComponent
 		} else {
 			// ... else combine with existing value (using synthetic AND (bAND))
-			combinedComponent, err := Combine(targetComponent, sourceComponent, SAND_BETWEEN_COMPONENTS)
+			// Combine with copy of source component, since the source may be shared across multiple statements
+			// (combining relinks the parent of the combined nodes)
+			combinedComponent, err := Combine(targetComponent, sourceComponent.copyTree(nil), SAND_BETWEEN_COMPONENTS)
 			if err.ErrorCode != TREE_NO_ERROR {
 				Println("Component copying failed. Error: ", err)
 			}
@@ -905,4 +907,19 @@ func (s *Statement) CalculateComplexity() StateComplexity {
 
 	return results
 
+}
+
+/*
+Returns copy of the node tree below (and including) the given node, linked to the given parent node.
+Entries, shared elements, and private node links are referenced, not copied.
+*/
+func (n *Node) copyTree(parent *Node) *Node {
+	if n == nil {
+		return nil
+	}
+	nodeCopy := *n
+	nodeCopy.Parent = parent
+	nodeCopy.Left = n.Left.copyTree(&nodeCopy)
+	nodeCopy.Right = n.Right.copyTree(&nodeCopy)
+	return &nodeCopy
 }
